@@ -667,7 +667,7 @@ def run(plan: dict) -> dict:
 
 FAULT_REGIONS = ["_lower_and_call", "wrapped", "lower_equation_with_plugin", "lower_jaxpr_with_plugins", "_activate_full_plugin_worlds_for_body", "_build_and_finalize_ir_model", "_trace_to_jaxpr", "apply_monkey_patches", "_optimize_graph_with_failure_policy", "to_onnx"]
 FIX = "fx::c13::"
-ENUM_QUICK = ["flat", "net", "outer"]
+ENUM_QUICK = ["flat", "net", "outer", "fn_boundary_f64"]
 ENUM_THOROUGH = ["flat", "net", "outer", "fn_boundary", "eqx_block", "plain", "kwblock", "flat_f64", "fn_boundary_f64", "cf_nested"]
 PROBE_PIDS = ["flat", "net", "outer", "fn_boundary", "eqx_block", "plain", "jit_cold", "jit_cold2", "kwblock", "cf_nested", "eqx_rope"]
 
@@ -695,7 +695,10 @@ def gen_history(seed: int, run: int, registry: list[str], n_ops: int) -> list[di
             elif v < 0.36:
                 op["fault"] = {"named": r.choice(["user_raises_before", "user_raises_after", "nested_convert", "nested_convert_raises"])}
             w_ = r.random()
-            if w_ < 0.15:
+            if "region" in (op.get("fault") or {}) and op["fault"]["region"][0] in ("_lower_and_call", "wrapped", "_activate_full_plugin_worlds_for_body", "lower_jaxpr_with_plugins") and r.random() < 0.4:
+                # a failure inside a function body while the conversion runs in the OTHER precision
+                op["over"] = {"enable_double_precision": True}
+            elif w_ < 0.15:
                 op["over"] = {"enable_double_precision": True}
             elif w_ < 0.25:
                 op["over"] = {"return_mode": "ir"}
